@@ -85,9 +85,20 @@ class H11ConnModel:
         return obj
 
     def havoc(self, interp, obj):
-        # the other tasks on this connection (reader / application) drive the same state machine
+        # the other tasks on this connection (reader / application) drive the same state machine --
+        # but only a stream's application sends through it: while no stream is attached to the
+        # protocol nobody else touches the connection
+        us = interp.unit_self
+        if us is not None and us.fields.get("connection") is obj and "stream" in us.fields:
+            st = us.fields["stream"]
+            if st is None or (hasattr(st, "is_none") and interp.ctx.decided(st.is_none) is True):
+                return
         keep = {k: obj.fields[k] for k in ("role", "max_incomplete_event_size") if k in obj.fields}
+        old_their, old_our = obj.fields["their_state"], obj.fields["our_state"]
         self._fresh(interp, obj, obj.tag or "h11conn")
+        # ERROR is absorbing on either side
+        interp.ctx.assume(z3.Implies(st_is(old_their, h11.ERROR), st_is(obj.fields["their_state"], h11.ERROR)))
+        interp.ctx.assume(z3.Implies(st_is(old_our, h11.ERROR), st_is(obj.fields["our_state"], h11.ERROR)))
         obj.fields["trailing"] = ops.fresh_payload(interp.ctx, "trailing")
         obj.fields.update(keep)
 
@@ -117,7 +128,8 @@ class H11ConnModel:
         from .sym import s_ascii_ok
 
         ctx.assume(z3.And(z3.Length(ev.fields["method"].e) >= 1, s_ascii_ok(ev.fields["method"].e), z3.Length(ev.fields["target"].e) >= 1, s_ascii_ok(ev.fields["target"].e)))
-        ctx.assume(z3.Or(ev.fields["http_version"].e == z3.StringVal("1.0"), ev.fields["http_version"].e == z3.StringVal("1.1")))
+        # any "d.d" version reaches hypercorn (this is how the cleartext HTTP/2 preface PRI * HTTP/2.0 is seen)
+        ctx.assume(z3.And(z3.Length(ev.fields["http_version"].e) == 3, s_ascii_ok(ev.fields["http_version"].e)))
         hs = z3.Const(ctx.fresh_name("req.headers"), PairSeq)
         ctx.inputs[str(hs)] = hs
         from .sym import Pair, s_lower
@@ -189,7 +201,7 @@ class H11ConnModel:
         if cls is h11.InformationalResponse:
             if not ctx.branch(st_is(our, h11.SEND_RESPONSE), f"h11.send.state@{fr.line}"):
                 fail()
-            if ctx.choose(2, f"h11.send.headers@{fr.line}", ["ok", "LocalProtocolError"]) == 1:
+            if not self._server_headers(interp) and ctx.choose(2, f"h11.send.headers@{fr.line}", ["ok", "LocalProtocolError"]) == 1:
                 fail()
             f["they_are_waiting_for_100_continue"] = False
             sc = ev.fields.get("status_code")
@@ -200,7 +212,7 @@ class H11ConnModel:
             if not ctx.branch(st_is(our, h11.SEND_RESPONSE), f"h11.send.state@{fr.line}"):
                 fail()
             # header validation (names/values, content-length) can reject what the application gave
-            if ctx.choose(2, f"h11.send.headers@{fr.line}", ["ok", "LocalProtocolError"]) == 1:
+            if not self._server_headers(interp) and ctx.choose(2, f"h11.send.headers@{fr.line}", ["ok", "LocalProtocolError"]) == 1:
                 fail()
             f["our_state"] = h11.SEND_BODY
             f["they_are_waiting_for_100_continue"] = False
@@ -214,7 +226,7 @@ class H11ConnModel:
             if not ctx.branch(st_is(our, h11.SEND_BODY), f"h11.send.state@{fr.line}"):
                 fail()
             # fewer bytes than the declared content-length
-            if ctx.choose(2, f"h11.send.length@{fr.line}", ["ok", "LocalProtocolError"]) == 1:
+            if not self._server_headers(interp) and ctx.choose(2, f"h11.send.length@{fr.line}", ["ok", "LocalProtocolError"]) == 1:
                 fail()
             nxt = ctx.fresh("h11.our", I)
             ctx.assume(z3.Or(nxt == sidx(h11.DONE), nxt == sidx(h11.MUST_CLOSE)))
@@ -223,6 +235,15 @@ class H11ConnModel:
             raise Unsupported(f"h11 send of {ev!r}")
         interp.traces.setdefault("h11", []).append(ev)
         return ops.fresh_payload(ctx, "h11wire")
+
+    def _server_headers(self, interp):
+        """units that only send server generated headers (date/server/alt-svc from the
+        configuration): h11 accepts them (assumption listed in the evidence)"""
+        fc = interp.reg.fns.get(getattr(interp, "unit_qual", ""))
+        ok = bool(fc and fc.model_opts.get("h11_server_headers_ok"))
+        if ok:
+            interp.ctx.assumptions_used.add("h11 accepts the server generated headers (date, server, alt-svc from the configuration)")
+        return ok
 
     def m_start_next_cycle(self, interp, obj, args, kwargs, fr):
         ctx = interp.ctx
@@ -235,3 +256,11 @@ class H11ConnModel:
         f["their_state"] = h11.IDLE
         interp.traces.setdefault("h11", []).append("start_next_cycle")
         return None
+
+
+class _ReqSym:
+    def symbolic(self, interp, name):
+        return MODEL_BY_REAL[h11.Connection]._request(interp)
+
+
+MODEL_CLASSES["h11:Request"] = _ReqSym()
